@@ -1,6 +1,7 @@
 /- C15 — bad input fails cleanly: property theorems (only).
    Helper lemmas: `Proofs/C15NoLeak.lean`; concrete data: `Proofs/C15Witness.lean`. -/
 import XsdataModel.Proofs.C15NoLeak
+import XsdataModel.Proofs.C15Union
 import XsdataModel.Proofs.C15Witness
 import XsdataModel.Fault.Doc
 import XsdataModel.Proofs.C15Dict
@@ -85,7 +86,7 @@ theorem no_leak_document (e : BEnv) (he : e.isNCName [] = false) (Γ : Ctx) (cfg
     (c : ClassId) (tok : Tok) (py : String) :
     parseDocument e Γ cfg c tok ≠ .error (.leaked py) := by
   cases tok with
-  | tree t => exact no_leak_parse e he Γ cfg c t py
+  | tree t => exact (parseRootU_clean e he Γ cfg c t).not_leaked py
   | syntaxError => intro h; cases h
   | codecError s => intro h; cases h
 
